@@ -169,7 +169,7 @@ func NewWorld(workDir string, hosts int, verbose bool) (*World, error) {
 		if ref == nil {
 			return simcore.CmdAck
 		}
-		return ref.env.outcome(ref.idx)
+		return ref.env.outcome(ref.idx, ev)
 	}
 	w.Rec.OnStart = func(id string, vars map[string]string) {
 		w.mu.Lock()
@@ -236,20 +236,29 @@ type Env struct {
 
 	mu         sync.Mutex
 	outcomes   []simcore.CmdOutcome // for the command in flight, by position
-	activeSeen []bool               // by position: the director saw the launched task ACTIVE in the roster
-	cmdBase    map[int]int          // position -> task events published when the last command reached the task
-	trace      []string             // what the director of Create did and when (diagnosis of a failed creation)
+	armedEv    string               // "" or the event the outcomes are scripted for (once per position)
+	used       []bool
+	activeSeen []bool      // by position: the director saw the launched task ACTIVE in the roster
+	cmdBase    map[int]int // position -> task events published when the last command reached the task
+	trace      []string    // what the director of Create did and when (diagnosis of a failed creation)
 	finished   bool
 	evMark     int // index into the captured state list where the current request began
 	callMark   int
 }
 
-func (e *Env) outcome(idx int) simcore.CmdOutcome {
+func (e *Env) outcome(idx int, ev string) simcore.CmdOutcome {
 	e.mu.Lock()
 	defer e.mu.Unlock()
 	out := simcore.CmdAck
 	if !e.finished && idx < len(e.outcomes) {
-		out = e.outcomes[idx]
+		if e.armedEv == "" {
+			out = e.outcomes[idx]
+		} else if ev == e.armedEv && idx < len(e.used) && !e.used[idx] {
+			// scripted for this event, once: a later command of the core's own (the STOP the watcher
+			// sends to the tasks still RUNNING after a failure) is acknowledged
+			out = e.outcomes[idx]
+			e.used[idx] = true
+		}
 	}
 	if (out == simcore.CmdAck || out == simcore.CmdErrSource || out == simcore.CmdErrError) && idx < len(e.TaskIds) && e.TaskIds[idx] != "" {
 		// a reply will come: remember how many task events the task had published (AwaitReplies)
@@ -290,9 +299,23 @@ func (e *Env) note(t0 time.Time, format string, a ...interface{}) {
 	e.mu.Unlock()
 }
 
+// SetOutcomes scripts the outcome of every command the tasks receive from now on, by position.
 func (e *Env) SetOutcomes(oc []simcore.CmdOutcome) {
 	e.mu.Lock()
 	e.outcomes = append([]simcore.CmdOutcome(nil), oc...)
+	e.armedEv, e.used = "", nil
+	e.mu.Unlock()
+}
+
+// SetOutcomesFor scripts the outcome of the next command with event ev (CONFIGURE | START | STOP |
+// RESET) that reaches each task, by position; every other command, and a second one with that event,
+// is acknowledged.  A scripted silence would otherwise also swallow a command the core sends on its
+// own afterwards and block the core's serial command queue for the 90 s response time-out, into the
+// next case of the worker.
+func (e *Env) SetOutcomesFor(ev string, oc []simcore.CmdOutcome) {
+	e.mu.Lock()
+	e.outcomes = append([]simcore.CmdOutcome(nil), oc...)
+	e.armedEv, e.used = ev, make([]bool, len(oc))
 	e.mu.Unlock()
 }
 
@@ -561,7 +584,7 @@ func (w *World) Create(name string, tasks []Task, launch []string, cfg []string,
 		return nil, CreateResult{Err: err}
 	}
 	e := &Env{W: w, Id: uid.New(), Name: name, Tasks: tasks, TaskIds: make([]string, len(tasks)), activeSeen: make([]bool, len(tasks)), cmdBase: map[int]int{}}
-	e.SetOutcomes(ParseOutcomes(cfg, len(tasks)))
+	e.SetOutcomesFor("CONFIGURE", ParseOutcomes(cfg, len(tasks)))
 	e.Mark()
 	stop := make(chan struct{})
 	dirDone := make(chan struct{})
